@@ -210,7 +210,7 @@ func runGateSeqOps(rc *RunCtx, prop string, fixed []gateOp, fixedBroker bool) {
 	if fixed != nil {
 		n = len(fixed)
 	}
-	ids := []string{"a", "b", "c", "d", "e"}
+	ids := []string{"a", "a ", "c", " a", "a\n"} // opaque strings: surrounding white space belongs to the id
 	nIDs := 3
 	if prop == "C17" {
 		nIDs = 5
@@ -271,6 +271,10 @@ func runGateSeqOps(rc *RunCtx, prop string, fixed []gateOp, fixedBroker bool) {
 				// the exported Expiration is changed on the live filter: groups opened
 				// from now on expire earlier / later than the ones already open
 				op = gateOp{Kind: "set-expiration", D: []int64{int64(E) / 10, int64(E) * 10, int64(E) / 3}[tp.Choose(3, "newexp")]}
+			}
+			if !probe && fixed == nil && tp.Choose(12, "reopen") == 0 {
+				// Reopen (the Broker calls it on every node of every pipeline) must leave the gate as it is
+				op = gateOp{Kind: "reopen"}
 			}
 			if !probe && fixed == nil && tp.Choose(12, "set-broker") == 0 {
 				// the exported Broker field is assigned, replaced or cleared on the live filter:
@@ -390,6 +394,13 @@ func runGateSeqOps(rc *RunCtx, prop string, fixed []gateOp, fixedBroker bool) {
 				if out != e || err != nil {
 					fail("passthrough", "", "a non-Gateable event must pass through unchanged, got (%p, %v) for %p", out, err, e)
 				}
+				noExtra()
+			case "reopen":
+				histStr = append(histStr, "reopen")
+				if err := gf.Reopen(); err != nil {
+					fail("spurious-error", "reopen", "Reopen returned %v", err)
+				}
+				simrt.Probe("gate.reopened")
 				noExtra()
 			case "noid":
 				histStr = append(histStr, "event-without-id")
@@ -1022,7 +1033,7 @@ func runGateStock(rc *RunCtx) {
 		via string
 	}
 	var comps []comp
-	ids := []string{"a", "b", "c"}
+	ids := []string{"a", "b", "b\t"} // opaque strings: surrounding white space belongs to the id
 	n := 1 + tp.Choose(30, "nops")
 	var hist []string
 	done := false
